@@ -8,13 +8,13 @@ TECH = "contract-based deductive verification: sidecar contracts on the real fun
 CLAIMS = {
     "C01": dict(cat="proof", ref="DESIGN.md 5/C01",
         text="raises(Packet.from_file/from_port/from_dict) within {PacketInvalid, ValueError} for all text (unbounded-string case where the frame regex fails; every frame-regex length with all characters symbolic where it matches), raises(pkt_lifespan) within {AssertionError, ValueError}, raises(Message) within {PacketInvalid} for every schema code/verb/length inside the generator's reach, and FileTransport._reader/_frame_read deliver exactly the decodable lines in order: all SMT-discharged on the real functions",
-        note="trusted: pyvc semantics incl. the unbounded-string abstraction (only total str operations), z3/cvc5, regex->NFA compiler and its accepted_lengths DP; callee contracts (pkt_lifespan, Packet.from_file, hex_to_str) are discharged by their own harnesses; serial segmentation independence is a *bounded* native exhaustive check (streams <= 7 bytes over {CR,LF,a}, all cuts), parsers 1030/2411/0418/3220 only by a bounded native stand-in (31DA: modular contracts); MQTT JSON path and real serial I/O not decided"),
+        note="trusted: pyvc semantics incl. the unbounded-string abstraction (only total str operations), z3/cvc5, regex->NFA compiler and its accepted_lengths DP; callee contracts (pkt_lifespan, Packet.from_file, hex_to_str) are discharged by their own harnesses; serial segmentation independence is a *bounded* native exhaustive check (streams <= 7 bytes over {CR,LF,a}, all cuts), parsers 0418/3220 only by a bounded native stand-in (31DA/1030/2411: modular contracts); MQTT JSON path and real serial I/O not decided"),
     "C02": dict(cat="proof", ref="DESIGN.md 5/C02",
         text="parse/print identity of Frame, Command (_from_attrs, from_attrs, from_cli), Packet and the log reader is an SMT-discharged postcondition of the real functions for all frames of the enumerated payload lengths (exhaustive over 1..48 in the thorough tier)",
         note="trusted: pyvc encoding of Python semantics (A1-A14), z3/cvc5, regex->NFA compiler; pkt_lifespan abstracted by its call-site contract (proved under C14); the logging library's formatting is an assumed contract validated natively on every run (bounded, not counted as proved); Packet._partition proved for part lengths <= 4/2/2/3 only (bounded)"),
     "C05": dict(cat="proof", ref="DESIGN.md 5/C05",
         text="for every (code, verb, payload length, address shape) of CODES_SCHEMA inside the generator's reach and all schema-conforming payloads: the decoded payload is JSON-able, ratios/temperatures in range, reported indexes equal the frame's; decode is independent of a previously decoded packet (caches modelled); arrays decode element-wise; plus syntactic purity obligations on the decoder modules -- SMT-discharged on the real parsers",
-        note="trusted: pyvc semantics, z3/cvc5; element-wise lemma proved for free elements only for k=2 of 0009/2309/30C9, otherwise for elements sharing one symbolic body; hex_to_str by contract (proved for <= 3 bytes); parsers 1030/2411/0418/3220 outside reach: bounded native stand-in, not counted; 31DA decided modularly (18 field decoders under their own contracts, parse_capabilities by exhaustive enumeration of its 65 536 inputs); quick tier = stateful/API codes at their shortest length"),
+        note="trusted: pyvc semantics, z3/cvc5; element-wise lemma proved for free elements only for k=2 of 0009/2309/30C9, otherwise for elements sharing one symbolic body; hex_to_str by contract (proved for <= 3 bytes); parsers 0418/3220 outside reach: bounded native stand-in, not counted; 31DA / 1030 / 2411 decided modularly (field decoders, the inner per-parameter decoder and the value codecs under their own contracts; parse_capabilities by exhaustive enumeration of its 65 536 inputs; 2411's 23-byte forms only in the thorough tier); quick tier = stateful/API codes at their shortest length"),
     "C06": dict(cat="proof", ref="DESIGN.md 5/C06",
         text="L-echo, L-reply and L-miss (one-dimension near misses) are SMT-discharged postconditions of the real pkt_header/_pkt_idx/_ctx/_hdr/rx_header and WantEcho/WantRply.pkt_rcvd for every RQ/W (code, payload length) of the schema, all ids and all schema-conforming payloads; four genuine exceptions are listed known findings and the obligations are re-proved outside their input classes",
         note="trusted: pyvc semantics, z3/cvc5, regex->NFA compiler; ProtocolContext.set_state abstracted by a recording call-site contract (the real one is under C08); pkt_lifespan by its call-site contract; quick tier = codes of CODE_API_MAP at their shortest payload length, thorough = every code/length of CODES_SCHEMA"),
